@@ -8,7 +8,8 @@
 //! action/cmd = ["partition", sel, sel] | ["partition_oneway", sel, sel] | ["repair",..] |
 //!   ["repair_oneway",..] | ["hold",..] | ["release",..] | ["links"] |
 //!   ["deliver", a, b, k] | ["deliver_all", a, b] | ["set_link_latency", sel, sel, ms] |
-//!   ["set_link_max", sel, sel, ms] | ["set_max", ms] | ["send", dst, id] (host only)
+//!   ["set_link_max", sel, sel, ms] | ["set_max", ms] | ["set_link_fail_rate", sel, sel, rate] | ["set_curve", v]
+//!   | ["send", dst, id] (host only)
 //! sel = {"h": i} (by name) | {"ip": i} | {"re": "regex"}
 //! Hosts are named h0..; host number i has the i-th smallest address.
 
@@ -374,6 +375,16 @@ fn run_case(case: &Value) -> Value {
                 }
                 "set_max" => {
                     sim.set_max_message_latency(Duration::from_millis(act[1].as_u64().unwrap()));
+                }
+                "set_link_fail_rate" => {
+                    // a per-link fail rate is a message-loss setting: it must not touch the link's latency
+                    let (a, b) = (sel(&act[1], &ips), sel(&act[2], &ips));
+                    let v = act[3].as_f64().unwrap();
+                    with_sel2!(a, b, |x, y| sim.set_link_fail_rate(x, y, v));
+                }
+                "set_curve" => {
+                    // distribution parameter only: the sampled value is read from the decision log
+                    sim.set_message_latency_curve(act[1].as_f64().unwrap());
                 }
                 _ => {
                     let a = sel(&act[1], &ips);
